@@ -40,6 +40,8 @@ func (m *monC05) classify(r *Runner, s *Snap, pk PosKey, op, errs string) string
 			}
 		}
 		return op + ":division-by-zero"
+	case strings.Contains(errs, "too small to be represented in shares"):
+		return op + ":deposit-below-share-resolution"
 	case strings.Contains(errs, "overflow"):
 		// shares per token inflated by repeated take-rate deductions (the share total never shrinks): the
 		// shares for a large deposit no longer fit an 18-digit decimal
